@@ -50,6 +50,9 @@ func ValidateAttesterSlashing(ctx context.Context, attSl *phase0.AttesterSlashin
 	if attSlVal.AttesterSlashableAllSeen(slashable) {
 		return GossipValidatorResult{IGNORE, errors.New("no unseen slashable attester indices")}
 	}
+	// the seen-set of the spec is made of the whole intersection (attester_slashed_indices),
+	// not only of the part that is still slashable in the head state
+	intersection := append(common.ValidatorSet(nil), slashable...)
 
 	_, epc, state, err := attSlVal.HeadInfo(ctx)
 	if err != nil {
@@ -84,6 +87,6 @@ func ValidateAttesterSlashing(ctx context.Context, attSl *phase0.AttesterSlashin
 	if err := phase0.ValidateIndexedAttestation(spec, epc, state, sa2); err != nil {
 		return GossipValidatorResult{REJECT, fmt.Errorf("attester slashing att 2 signature is invalid: %v", err)}
 	}
-	attSlVal.MarkAttesterSlashings(slashable)
+	attSlVal.MarkAttesterSlashings(intersection)
 	return GossipValidatorResult{ACCEPT, nil}
 }
